@@ -269,17 +269,27 @@ class Engine(ExprMixin, StmtMixin, CallMixin, PrimMixin, NumpyMixin, BOMixin):
                 for s1, v in self.instantiate(s, parts[k], "%s.%d" % (name, k), fresh):
                     yield from rec(s1, k + 1, acc + [v])
             yield from rec(st, 0, [])
-        elif ty.startswith("struct[") and ty.endswith("]"):
+        elif ty.startswith("sdtype[") and ty.endswith("]"):
+            # the dtype of a structured array (string type codes): only the field list is used
+            from .nplib import DTypeV
+            for s1, r in self.instantiate(st, "sstruct[" + ty[7:], name, fresh):
+                yield s1, DTypeV(r, s1.get(r))
+        elif (ty.startswith("struct[") or ty.startswith("sstruct[")) and ty.endswith("]"):
             # struct[a:int,b:real] : structured array with parallel field arrays of one length
             n = z3.Int(name + "!len")
             self.assume(st, n >= 0)
             fields, ftype, fshape = {}, {}, {}
             from .values import FieldType
-            for part in _split_types(ty[7:-1]):
+            strcodes = ty.startswith("sstruct[")
+            for part in _split_types(ty[ty.index("[") + 1:-1]):
                 fname, fkind = part.split(":")
                 fname, fkind = fname.strip(), fkind.strip()
                 fields[fname] = self.fresh_arr(st, fkind, name + "." + fname, fresh=fresh, n=n)
-                ftype[fname] = FieldType(z3.Int("%s.%s!type" % (name, fname)), fkind)
+                # sstruct: the numpy type string itself ('<i4', '|S3', ...), so that code can strip its byte-order character
+                code = z3.String("%s.%s!typestr" % (name, fname)) if strcodes else z3.Int("%s.%s!type" % (name, fname))
+                if strcodes:
+                    self.assume(st, z3.Length(code) >= 2)
+                ftype[fname] = FieldType(code, fkind)
                 fshape[fname] = z3.Int("%s.%s!subshape" % (name, fname))
             yield st, st.alloc(HStruct(n, fields, fresh=fresh, ftype=ftype, fshape=fshape))
         elif ty.startswith("obj:"):
@@ -327,6 +337,33 @@ class Engine(ExprMixin, StmtMixin, CallMixin, PrimMixin, NumpyMixin, BOMixin):
                 yield st, AbsIterable(name, n, False)
         else:
             raise SpecError("unknown type %r for %s" % (ty, name))
+
+
+def resolve_mod(m, env, st):
+    """'self._robj.robj.size_line' / "self._hdr['_SIZE']" / 'data'  ->  (owner Ref | value, key, is_item)
+    walks attribute / constant-item steps from a formal to the object that owns the last step; key '' means the whole value"""
+    tree = ast.parse(m.strip(), mode="eval").body
+    steps = []
+    while isinstance(tree, (ast.Attribute, ast.Subscript)):
+        if isinstance(tree, ast.Attribute):
+            steps.append(("attr", tree.attr))
+            tree = tree.value
+        else:
+            steps.append(("item", ast.literal_eval(tree.slice)))
+            tree = tree.value
+    if not isinstance(tree, ast.Name):
+        raise SpecError("bad modifies entry " + m)
+    steps.reverse()
+    cur = env.get(tree.id)
+    if not steps:
+        return cur, "", False
+    for kind, key in steps[:-1]:
+        if not (isinstance(cur, Ref) and isinstance(st.get(cur), HObj)):
+            return cur, "", False
+        h = st.get(cur)
+        cur = h.fields.get(key) if kind == "attr" else h.items.get(key)
+    kind, key = steps[-1]
+    return cur, key, kind == "item"
 
 
 def split_mod(m):
@@ -483,8 +520,7 @@ def _verify_variant(self, f, c, var, vi, info):
         # everything reachable from parameters is non-fresh; what may be modified is listed by the contract
         fr.modifiable = {}
         for m in c.modifies:
-            base, fld = split_mod(m)
-            tgt = env.get(base)
+            tgt, fld, _is_item = resolve_mod(m, env, st)
             if isinstance(tgt, Ref):
                 h = st.get(tgt)
                 root = self.root(st, tgt) if isinstance(h, HArr) else tgt
@@ -497,6 +533,8 @@ def _verify_variant(self, f, c, var, vi, info):
                         held = h.items.get(fld, h.fields.get(fld))
                         if isinstance(held, Ref) and isinstance(st.get(held), HArr):
                             fr.modifiable[self.root(st, held).id] = True
+                        if isinstance(held, Ref) and isinstance(st.get(held), HObj) and st.get(held).cls == "dict":
+                            fr.modifiable[held.id] = True       # a dict held in a listed attribute may be updated in place
                 else:
                     fr.modifiable[root.id] = True
                     if isinstance(h, HStruct):
@@ -561,6 +599,11 @@ def _run_body(self, f, c, st, fr, info):
                 else:
                     self.oblige(s, self.iter_equal(fr2.result, fr.gen["source_value"], s), "gen",
                                 "returns-iterator-over-the-source-items", node, fr)
+            if "post" in c.checks and kind == "next" and c.ret_post and "end" in c.ret_post:
+                # postconditions stated at the implicit end of the body may mention the function's locals
+                for name, clause in c.ret_post["end"].items():
+                    g = self.spec_eval(clause, s, fr2, c.name + ":" + name)
+                    self.oblige_no_assume(s, g, "post", name, node, fr)
             if "post" in c.checks:
                 # postconditions speak about the parameters (entry bindings; heap objects in their final state)
                 s.env = dict(fr.params)
@@ -582,6 +625,13 @@ def _run_body(self, f, c, st, fr, info):
                 conds.append(truth(g) if not isinstance(g, bool) else g)
             from .values import zor
             self.oblige(s, zor(*conds), "post", "raises-%s-only-when" % v.cls, node, fr)
+            # exceptional postconditions: what must (still) hold when the exception escapes
+            if v.cls in c.raise_ensures and not s.dead:
+                fr3 = self.sub_frame(fr)
+                s.env = dict(fr.params)
+                for nm, clause in c.raise_ensures[v.cls].items():
+                    g = self.spec_eval(clause, s, fr3, c.name + ":" + nm)
+                    self.oblige_no_assume(s, g, "post", "on-%s:%s" % (v.cls, nm), node, fr)
         else:
             raise Unsupported("break/continue outside loop")
 
